@@ -44,6 +44,7 @@ inductive FieldKind
   | plain     -- scalar (bool, integers, floating point, enum, pointer, reference)
   | mutex     -- std::mutex and relatives
   | condvar   -- std::condition_variable(_any)
+  | thread    -- std::thread / std::jthread (a thread handle)
   | other     -- any class type (containers, Eigen objects, std::unique_ptr, std::thread, …)
   deriving DecidableEq, Repr
 
@@ -86,6 +87,24 @@ structure Access where
   line  : Nat
   deriving Repr
 
+/-- what a function does to a thread-handle member -/
+inductive ThreadOpKind
+  | spawn      -- assigned / initialised with a thread constructed from a function of the library
+  | join
+  | joinable
+  | detach
+  | move       -- moved from, swapped, assigned another thread object, passed by reference
+  | query      -- get_id, native_handle
+  | other
+  deriving DecidableEq, Repr
+
+structure ThreadOp where
+  meth  : Nat
+  field : Nat
+  kind  : ThreadOpKind
+  line  : Nat
+  deriving Repr
+
 structure Call where
   caller : Nat
   callee : Nat
@@ -97,10 +116,12 @@ structure Table where
   methods  : List Method
   accesses : List Access
   calls    : List Call
+  /-- every operation on a `std::thread` member, per function -/
+  threadOps : List ThreadOp := []
 
 def FieldKind.isSync : FieldKind → Bool
   | .atomic | .mutex | .condvar => true
-  | .plain | .other => false
+  | .plain | .other | .thread => false
 
 def AccKind.isWrite : AccKind → Bool
   | .read => false
@@ -267,6 +288,52 @@ def lifecycleClass : Nat := name% "FilteringAlgorithm"
 /-- the only thread creation of the library: `boot()` hands `filtering_recursion` to `std::thread` -/
 def spawnSite : Nat × Nat := (name% "FilteringAlgorithm::boot", name% "FilteringAlgorithm::filtering_recursion")
 
+/-- the function that joins the filtering thread -/
+def joinSite : Nat := name% "FilteringAlgorithm::wait"
+
+def Table.methNameIs (T : Table) (m : Nat) (n : Nat) : Bool :=
+  match T.methods[m]? with
+  | some md => md.name == n
+  | none => false
+
+def Table.fieldIsThread (T : Table) (f : Nat) : Bool :=
+  match T.fields[f]? with
+  | some fd => fd.kind == .thread
+  | none => false
+
+/-- **The join is certified.**  Given the sets of functions the two roles may execute:
+    (a) the filtering thread never touches a thread handle;
+    (b) the controller only spawns (in `boot()`), joins (in `wait()`), asks `joinable()` / queries — it
+        never detaches, moves, swaps or reassigns a handle;
+    (c) `wait()` does contain a `join()`;
+    (d) every access row of a reachable function to a thread handle lies in `boot()` or `wait()`.
+    Hence between `boot()` and `wait()` the handle stays joinable and `wait()` returns only after the
+    filtering thread has finished (`BFL/Proofs/RaceJoin.lean`): the accesses after `wait()` are ordered. -/
+def Table.joinCertifiedIn (T : Table) (SC SF : Nat) : Bool :=
+  (T.threadOps.all fun o => !SF.testBit o.meth) &&
+  (T.accesses.all fun a => !(T.fieldIsThread a.field && SF.testBit a.meth)) &&
+  (T.threadOps.all fun o => !SC.testBit o.meth ||
+    (match o.kind with
+     | .spawn => T.methNameIs o.meth spawnSite.1
+     | .join => T.methNameIs o.meth joinSite
+     | .joinable | .query => true
+     | .detach | .move | .other => false)) &&
+  (T.threadOps.any fun o => o.kind == .join && T.methNameIs o.meth joinSite && SC.testBit o.meth) &&
+  (T.accesses.all fun a => !(T.fieldIsThread a.field && SC.testBit a.meth) ||
+    T.methNameIs a.meth spawnSite.1 || T.methNameIs a.meth joinSite)
+
+def Table.joinCertifiedB (T : Table) : Bool := T.joinCertifiedIn (T.reach .controller) (T.reach .filter)
+
+/-- What the translator certifies syntactically about locksets: a row carries a lockset only when its
+    object expression is `this`, and every entry of a lockset is a mutex member.  (The translator records a
+    lock only when the mutex expression is `this->m` in the same function as the access `this->f`, or in a
+    caller that reaches it through calls on `this`: lock and member belong to the same object.) -/
+def Table.locksCertifiedB (T : Table) : Bool :=
+  T.accesses.all fun a => a.locks.isEmpty || (a.self && a.locks.all fun m =>
+    match T.fields[m]? with
+    | some fd => fd.kind == .mutex
+    | none => false)
+
 /-- ids used by the rows and edges exist -/
 def Table.wfB (T : Table) : Bool :=
   (T.accesses.all fun a => decide (a.field < T.fields.length) && decide (a.meth < T.methods.length)) &&
@@ -346,6 +413,19 @@ def Justified (T : Table) (pre : List Ev) : Ev → Prop
       ∃ r ∈ T.accesses, Reach T (T.rootIds t) r.meth ∧ r.field = f ∧ r.kind.isWrite = w ∧ T.fieldSync f = s ∧
         (r.self = true → ∀ m ∈ r.locks, held pre t (o, m) = true)
   | _ => True
+
+/-- The *same-object* reading is part of `Justified`: the row's locks are held on the object `o` whose
+    member is accessed.  `JustifiedAny` drops it (locks held on some object `o'`); `same_object_necessary`
+    (BFL/Proofs/RaceObject.lean) shows that the lockset theorem is false under this weaker reading, i.e. the
+    class-level abstraction "lockset and member belong to the same object" is a necessary hypothesis. -/
+def JustifiedAny (T : Table) (pre : List Ev) : Ev → Prop
+  | .acc t (_, f) w s =>
+      ∃ r ∈ T.accesses, Reach T (T.rootIds t) r.meth ∧ r.field = f ∧ r.kind.isWrite = w ∧ T.fieldSync f = s ∧
+        (r.self = true → ∃ o' : Obj, ∀ m ∈ r.locks, held pre t (o', m) = true)
+  | _ => True
+
+def ConformsAny (T : Table) (tr : List Ev) : Prop :=
+  ∀ pre e post, tr = pre ++ e :: post → JustifiedAny T pre e
 
 /-- every event of the interleaving is justified by the table -/
 def Conforms (T : Table) (tr : List Ev) : Prop :=
